@@ -48,6 +48,17 @@ impl Op {
     }
 }
 
+/// A published message with first frame `pf`. Matching looks at the first frame only, so the
+/// shapes vary what follows it: a second frame that would complete a longer topic if frames were
+/// concatenated ('a' + 'b..' is not 'ab'), no further frame at all, an empty frame in between.
+pub fn probe_msg(pf: &[u8], n: u32, label: &str) -> Vec<Vec<u8>> {
+    match n % 3 {
+        0 => vec![pf.to_vec(), format!("b{label}{n}").into_bytes()],
+        1 => vec![pf.to_vec()],
+        _ => vec![pf.to_vec(), vec![], format!("b{label}{n}").into_bytes()],
+    }
+}
+
 /// reference model: multiset of topics per connection
 #[derive(Default, Clone)]
 pub struct Model(pub Vec<Vec<u8>>);
@@ -144,7 +155,7 @@ fn run_world(ctx: &mut Ctx, kind: Kind, histories: Vec<Vec<Op>>, cut_points: Vec
                 // publish every probe first-frame; each carries a unique second frame
                 let mut expect: Vec<Vec<Vec<Vec<u8>>>> = vec![Vec::new(); nsub];
                 for pf in PROBES.iter() {
-                    let msg = vec![pf.to_vec(), format!("#{probe_no}").into_bytes()];
+                    let msg = probe_msg(pf, probe_no, "#");
                     probe_no += 1;
                     for i in 0..nsub {
                         if models[i].matches(pf) {
@@ -325,7 +336,7 @@ fn hist_concurrent(ctx: &mut Ctx) {
         }
         // publish filler while the subscribers come and go through their histories
         for n in 0..filler {
-            let msg = vec![PROBES[n % PROBES.len()].to_vec(), format!("filler{n}").into_bytes()];
+            let msg = probe_msg(PROBES[n % PROBES.len()], n as u32, "filler");
             if let Err(e) = sock.send(to_zmq(&msg)).await {
                 o2.borrow_mut().viol.push(("publish_failed", e.to_string()));
                 return world::park().await;
@@ -362,7 +373,7 @@ fn hist_concurrent(ctx: &mut Ctx) {
         let before: Vec<usize> = peers.iter().map(|p| p.as_ref().map(|p| p.inbound().messages().len()).unwrap_or(0)).collect();
         let mut expect: Vec<Vec<Vec<Vec<u8>>>> = vec![Vec::new(); nsub];
         for (k, pf) in PROBES.iter().enumerate() {
-            let msg = vec![pf.to_vec(), format!("final{k}").into_bytes()];
+            let msg = probe_msg(pf, k as u32, "final");
             for i in 0..nsub {
                 let mut m = Model::default();
                 for op in &h2[i] {
@@ -432,7 +443,7 @@ pub fn def() -> PropDef {
     PropDef {
         id: "C11",
         level: "exploration",
-        rule: "hist_enum: case index enumerates every history of length <= 4 over the 9 subscriber operations {subscribe/unsubscribe x topics '', 'a', 'ab', 'b', garbage} for PUB (indices 0..7381) and XPUB (7382..14763); at a mid-point and at the end the publisher sends all 7 probe first-frames {'', a, ab, abc, b, ba, c} and each subscriber's tap is compared with the multiset-prefix reference model; hist_random: 1..3 subscribers, histories <= 8, drawn quiescent points, random transport and schedule; non-trivial = at least one probe matched and one did not; distinct = distinct (case, plan, schedule, transport)",
+        rule: "hist_enum: case index enumerates every history of length <= 4 over the 9 subscriber operations {subscribe/unsubscribe x topics '', 'a', 'ab', 'b', garbage} for PUB (indices 0..7381) and XPUB (7382..14763); at a mid-point and at the end the publisher sends all 7 probe first-frames {'', a, ab, abc, b, ba, c} and each subscriber's tap is compared with the multiset-prefix reference model (probe messages alternate between one frame, two frames whose second would complete a longer topic if frames were concatenated, and three frames with an empty one in between); hist_random: 1..3 subscribers, histories <= 8, drawn quiescent points, random transport and schedule; non-trivial = at least one probe matched and one did not; distinct = distinct (case, plan, schedule, transport)",
         assumptions: &["matching is compared only at quiescent points (all subscription messages sent so far have been processed)", "subscribers accept every write (their pipes never answer Pending on writes), so nothing may be dropped"],
         strata: vec![
             Stratum { name: "hist_enum", quick: 2 * NHIST4, thorough: 2 * NHIST4, exhaustive: (true, true), run: hist_enum, what: "all 7382 histories <= 4 for PUB and for XPUB, one subscriber" },
